@@ -410,6 +410,13 @@ class DequeProg:
         raise Unsupported(f"integer expression {ast.dump(e)[:80]}")
 
     def cond(self, e, env):
+        # a handle found by the search is never None
+        if isinstance(e, ast.Compare) and len(e.ops) == 1 and isinstance(e.ops[0], (ast.Is, ast.IsNot)) \
+                and isinstance(e.left, ast.Name) and e.left.id in env["elems"] \
+                and isinstance(e.comparators[0], ast.Constant) and e.comparators[0].value is None:
+            return "True" if isinstance(e.ops[0], ast.IsNot) else "False"
+        if isinstance(e, ast.Name) and e.id in env["elems"]:
+            return "True"                              # a Handle object is truthy
         if isinstance(e, ast.Compare) and len(e.ops) == 1:
             sym = {ast.Lt: "<", ast.Gt: ">", ast.LtE: "≤", ast.GtE: "≥", ast.Eq: "=", ast.NotEq: "≠"}.get(type(e.ops[0]))
             if sym is None:
@@ -417,6 +424,16 @@ class DequeProg:
             return f"{self.iexpr(e.left, env)} {sym} {self.iexpr(e.comparators[0], env)}"
         if isinstance(e, ast.Name) and e.id in env.get("bools", {}):
             return f"{env['bools'][e.id]} = true"
+        if isinstance(e, ast.BoolOp):
+            op = " ∧ " if isinstance(e.op, ast.And) else " ∨ "
+            return op.join(f"({self.cond(v, env)})" for v in e.values)
+        if isinstance(e, ast.UnaryOp) and isinstance(e.op, ast.Not):
+            return f"¬ ({self.cond(e.operand, env)})"
+        # a handle found by the search is never None
+        if isinstance(e, ast.Compare) and len(e.ops) == 1 and isinstance(e.ops[0], (ast.Is, ast.IsNot)) \
+                and isinstance(e.left, ast.Name) and e.left.id in env["elems"] \
+                and isinstance(e.comparators[0], ast.Constant) and e.comparators[0].value is None:
+            return "True" if isinstance(e.ops[0], ast.IsNot) else "False"
         raise Unsupported(f"condition {ast.dump(e)[:80]}")
 
     @staticmethod
@@ -543,7 +560,10 @@ def gen_queue_find(default_tree):
     while body:
         b0 = body[0]
         if isinstance(b0, ast.Assign) and len(b0.targets) == 1 and isinstance(b0.targets[0], ast.Name):
-            seqvars[b0.targets[0].id] = seq(b0.value)
+            try:
+                seqvars[b0.targets[0].id] = seq(b0.value)
+            except Unsupported:
+                break                                   # not a snapshot: the search itself starts here
         elif isinstance(b0, ast.Expr) and isinstance(b0.value, ast.Call) and isinstance(b0.value.func, ast.Attribute) \
                 and b0.value.func.attr == "reverse" and not b0.value.args and isinstance(b0.value.func.value, ast.Name) \
                 and b0.value.func.value.id in seqvars:
@@ -551,6 +571,45 @@ def gen_queue_find(default_tree):
         else:
             break
         body = body[1:]
+    # the search written as `h = next((x for x in <seq> if key(x)), None)` followed by statements on `h`
+    b0 = body[0] if body else None
+    if isinstance(b0, ast.Assign) and len(b0.targets) == 1 and isinstance(b0.targets[0], ast.Name) \
+            and isinstance(b0.value, ast.Call) and isinstance(b0.value.func, ast.Name) and b0.value.func.id == "next" \
+            and len(b0.value.args) == 2 and isinstance(b0.value.args[0], ast.GeneratorExp) \
+            and isinstance(b0.value.args[1], ast.Constant) and b0.value.args[1].value is None:
+        g = b0.value.args[0]
+        if not (len(g.generators) == 1 and isinstance(g.generators[0].target, ast.Name) and isinstance(g.elt, ast.Name)
+                and g.elt.id == g.generators[0].target.id and len(g.generators[0].ifs) == 1 and not g.generators[0].is_async):
+            raise Unsupported("queue_find: generator expression")
+        x = g.elt.id
+        t = g.generators[0].ifs[0]
+        if not (isinstance(t, ast.Call) and isinstance(t.func, ast.Name) and t.func.id == keyn and len(t.args) == 1
+                and isinstance(t.args[0], ast.Name) and t.args[0].id == x):
+            raise Unsupported("queue_find: the generator does not filter by key(x)")
+        hn = b0.targets[0].id
+        rest = body[1:]
+        if not (rest and isinstance(rest[-1], ast.Return) and isinstance(rest[-1].value, ast.Name) and rest[-1].value.id == hn):
+            raise Unsupported("queue_find: does not end with `return <found>`")
+
+        def guarded_by_found(test):
+            """is `test` false when the found value is None?"""
+            if isinstance(test, ast.Name) and test.id == hn:
+                return True
+            if isinstance(test, ast.Compare) and len(test.ops) == 1 and isinstance(test.ops[0], ast.IsNot) \
+                    and isinstance(test.left, ast.Name) and test.left.id == hn \
+                    and isinstance(test.comparators[0], ast.Constant) and test.comparators[0].value is None:
+                return True
+            if isinstance(test, ast.BoolOp) and isinstance(test.op, ast.And):
+                return any(guarded_by_found(v) for v in test.values)
+            return False
+        for st_ in rest[:-1]:
+            if not (isinstance(st_, ast.If) and not st_.orelse and guarded_by_found(st_.test)):
+                raise Unsupported("queue_find: a statement that is not guarded by `<found> is not None`")
+        dp = DequeProg("q", [], elems=["h"], ret="optelem")
+        env = dp.start(qn, bools={rmn: "rm"})
+        env["elems"] = {hn: "h"}
+        found = dp.block(rest, env, "    ")
+        return (f"  match ({seq(g.generators[0].iter)}).find? key with\n  | none => some (none, q)\n  | some h =>\n{found}")
     if len(body) != 2 or not isinstance(body[0], ast.For) or body[0].orelse:
         raise Unsupported("queue_find is no longer `for ...: ...` followed by a return")
     loop, tail = body
@@ -618,6 +677,14 @@ class PredTr:
         bound = bound or {}
         if isinstance(e, ast.Constant) and isinstance(e.value, bool):
             return "true" if e.value else "false"
+        if isinstance(e, ast.IfExp):
+            t = self._is_none_test(e.test)
+            if t is not None:                      # `A if X is None else B` / `A if X is not None else B`
+                x, none_first = t
+                nb, sb = (e.body, e.orelse) if none_first else (e.orelse, e.body)
+                return (f"(match {self.opts[x]} with | none => {self.expr(nb, bound)} "
+                        f"| some {x}_v => {self.expr(sb, {**bound, x: f'{x}_v'})})")
+            return f"(if {self.expr(e.test, bound)} = true then {self.expr(e.body, bound)} else {self.expr(e.orelse, bound)})"
         if isinstance(e, ast.UnaryOp) and isinstance(e.op, ast.Not):
             return f"(!{self.expr(e.operand, bound)})"
         if isinstance(e, ast.BoolOp) and isinstance(e.op, ast.Or):
@@ -876,6 +943,8 @@ UNITS = [
      ["Wrappers.lean"], lambda src: __import__("wrappers2lean").generate(src)),
     ("condition variables", ["Cond.lean"], lambda src: __import__("cond2lean").generate(src)),
     ("task_timeout", ["Timeout.lean"], lambda src: __import__("timeout2lean").generate(src)),
+    ("asyncio.base_events / events (stdlib): call_soon, call_at, _run_once, Handle", ["BaseEvents.lean"],
+     lambda src: __import__("baseevents2lean").generate(src)),
     ("asyncio.locks (stdlib)", ["AsyncioLocks.lean"], lambda src: __import__("asynciolocks2lean").generate(src)),
     ("contextlib (stdlib)", ["Contextlib.lean"], lambda src: __import__("contextlib2lean").generate(src)),
     ("asyncio.futures / asyncio.tasks (stdlib, pure-Python Future and Task)", ["AsyncioKernel.lean"],
